@@ -314,6 +314,13 @@ fn simpler(e: &Ev, timeout: u128) -> Vec<Ev> {
                 }
             }
         }
+        Ev::Unwinding { n } => {
+            for t in [1u8, n / 2, n - 1] {
+                if t >= 1 && t < *n {
+                    v.push(Ev::Unwinding { n: t });
+                }
+            }
+        }
         Ev::Hop { n } => {
             for t in [1u8, n / 2, n - 1] {
                 if t >= 1 && t < *n {
@@ -321,7 +328,7 @@ fn simpler(e: &Ev, timeout: u128) -> Vec<Ev> {
                 }
             }
         }
-        Ev::Poll { .. } | Ev::Reset | Ev::Snapshot | Ev::Restore | Ev::FeedAbort { .. } => {}
+        Ev::Poll { .. } | Ev::Reset | Ev::Snapshot | Ev::Restore | Ev::FeedAbort { .. } | Ev::Liar { .. } => {}
     }
     v
 }
